@@ -1,9 +1,9 @@
-\* (thorough) as P2Bin_MC_window with <= 3 records
+\* (thorough) <= 3 records (start 0..3,5 x 0,1,4 units) x 9 lanes x 6 forms of -r
 CONSTANTS
   Dev = {}
   MaxRecs = 3
   Starts = {0, 1, 2, 3, 5}
-  UnitLens = {0, 1, 2, 4}
+  UnitLens = {0, 1, 4}
   GranSet = {1}
   EntryAddrs = {}
   Offsets = {}
